@@ -5,6 +5,7 @@ import (
 	"go/token"
 	"go/types"
 	"math/big"
+	"sort"
 	"strings"
 
 	"golang.org/x/tools/go/ssa"
@@ -119,6 +120,9 @@ func (x *Engine) store(fr *Frame, st *State, p Val, v Val, pos token.Pos) {
 
 // step executes one instruction; returns true when the block ends (terminator handled).
 func (x *Engine) step(fr *Frame, st *State, ins ssa.Instruction, in map[*ssa.BasicBlock][]inEdge) bool {
+	if len(x.guards) > 0 {
+		x.guardCheck(fr, st, ins)
+	}
 	switch i := ins.(type) {
 	case *ssa.DebugRef:
 		return false
@@ -157,6 +161,11 @@ func (x *Engine) step(fr *Frame, st *State, ins ssa.Instruction, in map[*ssa.Bas
 			fr.vals[i] = Val{T: fmt.Sprintf("(select %s %s)", b.T, idx.T), Typ: i.Type()}
 		}
 	case *ssa.UnOp:
+		if g, ok := i.X.(*ssa.Global); ok && i.Op == token.MUL && x.isGuardMutex(g) {
+			// the mutex variables of "guarded" declarations are set once at package initialisation
+			fr.vals[i] = Val{T: x.mutexTerm(g), Typ: i.Type()}
+			break
+		}
 		fr.vals[i] = x.unop(fr, st, i)
 	case *ssa.BinOp:
 		fr.vals[i] = x.binop(fr, st, i)
@@ -809,4 +818,166 @@ func (x *Engine) mulHints(st *State, a, b string) {
 func pow2(k uint) string {
 	n := new(big.Int).Lsh(big.NewInt(1), k)
 	return n.String()
+}
+
+// guardCheck generates the lock-discipline obligations of "guarded G by M": every load or store of G, and every use
+// of the value loaded from G (map lookup / update / range / len / delete / passing it on), happens while this
+// thread holds M — the write lock for stores and map updates, any lock otherwise.
+func (x *Engine) guardCheck(fr *Frame, st *State, ins ssa.Instruction) {
+	held := func(gd *guard, write bool) string {
+		mu := x.mutexTerm(gd.mu)
+		x.regComp("Lock:w", "(Array Int Int)")
+		x.regComp("Lock:r", "(Array Int Int)")
+		w := fmt.Sprintf("(select %s %s)", x.get(st, "Lock:w"), mu)
+		if gd.alt != nil {
+			a := fmt.Sprintf("(> (select %s %s) 0)", x.get(st, "Lock:w"), x.mutexTerm(gd.alt))
+			if write {
+				return fmt.Sprintf("(and (> %s 0) %s)", w, a)
+			}
+			return fmt.Sprintf("(or (> (+ %s (select %s %s)) 0) %s)", w, x.get(st, "Lock:r"), mu, a)
+		}
+		if write {
+			return fmt.Sprintf("(> %s 0)", w)
+		}
+		return fmt.Sprintf("(> (+ %s (select %s %s)) 0)", w, x.get(st, "Lock:r"), mu)
+	}
+	check := func(gd *guard, write bool, what string) {
+		if !hasProp(gd.props, x.curProp) {
+			return
+		}
+		p := posOf(x.prog, ins.Pos())
+		kind := "read"
+		if write {
+			kind = "write"
+		}
+		x.ordinals["guard:"+gd.g.Name()+kind]++
+		o := x.obligeNoAssume(st, "guard", fmt.Sprintf("%s-of-%s-under-%s#%d", kind, gd.g.Name(), gd.mu.Name(), x.ordinals["guard:"+gd.g.Name()+kind]), held(gd, write),
+			fmt.Sprintf("%s (%s) of %s while holding %s, at %s", kind, what, gd.g.Name(), gd.mu.Name(), p), p)
+		o.Props, o.Tagged = gd.props, true
+	}
+	switch i := ins.(type) {
+	case *ssa.UnOp:
+		if g, ok := i.X.(*ssa.Global); ok && i.Op == token.MUL {
+			if gd := x.guards[g]; gd != nil {
+				check(gd, false, "load")
+				if fr.guarded == nil {
+					fr.guarded = map[ssa.Value]*guard{}
+				}
+				fr.guarded[i] = gd
+			}
+			return
+		}
+	case *ssa.Store:
+		if g, ok := i.Addr.(*ssa.Global); ok {
+			if gd := x.guards[g]; gd != nil {
+				check(gd, true, "store")
+			}
+		}
+	}
+	if fr.guarded == nil {
+		return
+	}
+	for _, op := range ins.Operands(nil) {
+		if op == nil || *op == nil {
+			continue
+		}
+		gd := fr.guarded[*op]
+		if gd == nil {
+			continue
+		}
+		switch i := ins.(type) {
+		case *ssa.MapUpdate:
+			check(gd, true, "map update")
+		case *ssa.Range:
+			check(gd, false, "range")
+			fr.guarded[i] = gd
+		case *ssa.Next:
+			check(gd, false, "iteration step")
+		case *ssa.Lookup:
+			check(gd, false, "lookup")
+		case ssa.CallInstruction:
+			if b, ok := i.Common().Value.(*ssa.Builtin); ok && b.Name() == "delete" {
+				check(gd, true, "delete")
+			} else {
+				check(gd, false, "use in a call")
+			}
+		case *ssa.Store:
+			// storing the guarded value itself elsewhere lets it escape the lock
+			check(gd, false, "copying the reference")
+		default:
+			check(gd, false, "use")
+		}
+		return
+	}
+}
+
+func (x *Engine) isGuardMutex(g *ssa.Global) bool {
+	for _, gd := range x.guards {
+		if gd.mu == g || gd.alt == g {
+			return true
+		}
+	}
+	for _, o := range x.lockOrders {
+		if o[0] == g || o[1] == g {
+			return true
+		}
+	}
+	return false
+}
+
+// mutexTerm: the (constant) address held by a mutex variable of a "guarded" declaration.
+func (x *Engine) mutexTerm(g *ssa.Global) string {
+	n := "gmux_" + mangle(shortPkg(g.Pkg.Pkg.Path())+"."+g.Name())
+	if x.muxIDs == nil {
+		x.muxIDs = map[string]int{}
+	}
+	if _, ok := x.muxIDs[n]; !ok {
+		x.muxIDs[n] = len(x.muxIDs) + 1 // distinct mutex variables hold distinct mutexes
+	}
+	x.declRaw("mux:"+n, fmt.Sprintf("(define-fun %s () Int %d)", n, x.muxIDs[n]))
+	return n
+}
+
+// pkgMutexes: the declared mutex variables of a package.
+func (x *Engine) pkgMutexes(pkg *ssa.Package) []*ssa.Global {
+	seen := map[*ssa.Global]bool{}
+	var out []*ssa.Global
+	add := func(g *ssa.Global) {
+		if g != nil && g.Pkg == pkg && !seen[g] {
+			seen[g] = true
+			out = append(out, g)
+		}
+	}
+	for _, gd := range x.guards {
+		add(gd.mu)
+		add(gd.alt)
+	}
+	for _, o := range x.lockOrders {
+		add(o[0])
+		add(o[1])
+	}
+	sort.Slice(out, func(i, j int) bool { return out[i].Name() < out[j].Name() })
+	return out
+}
+
+// notHeldTerms: for the declared mutexes of pkg that the contract's lock preconditions do not mention, "not held".
+func (x *Engine) notHeldTerms(st *State, pkg *ssa.Package, fs *FuncSpec) []string {
+	x.regComp("Lock:w", "(Array Int Int)")
+	x.regComp("Lock:r", "(Array Int Int)")
+	var out []string
+	for _, m := range x.pkgMutexes(pkg) {
+		mentioned := false
+		if fs != nil {
+			for _, c := range fs.Requires {
+				if len(c.Props) > 0 && hasProp(c.Props, x.curProp) && strings.Contains(c.Text, m.Name()) {
+					mentioned = true
+				}
+			}
+		}
+		if !mentioned {
+			mu := x.mutexTerm(m)
+			out = append(out, fmt.Sprintf("(= (+ (select %s %s) (select %s %s)) 0)", x.get(st, "Lock:w"), mu, x.get(st, "Lock:r"), mu))
+		}
+	}
+	return out
 }
